@@ -724,6 +724,26 @@ func (env *specEnv) call(e *ast.CallExpr) Value {
 				}
 				x.C.DeclareFun(name, sorts, srt)
 				return Value{T: typ, L: []Term{app(srt, name, as...)}}
+			case "mapseen":
+				// mapseen(m, k): key k has already been produced by the (latest started) range loop over map m
+				m := env.eval(e.Args[0])
+				mt, ok := m.T.Underlying().(*types.Map)
+				if !ok || env.fr == nil {
+					unsup("mapseen(map, key)")
+				}
+				k := env.coerce(env.eval(e.Args[1]), mt.Key())
+				var best *ssa.Range
+				for it := range env.st.Iter {
+					if v, ok := env.fr.vals[it]; ok && len(v.L) > 0 && v.L[0].S == m.L[0].S {
+						if best == nil || it.Pos() > best.Pos() {
+							best = it
+						}
+					}
+				}
+				if best == nil {
+					unsup("mapseen: no range loop over this map is in progress")
+				}
+				return Value{T: types.Typ[types.Bool], L: []Term{Select(env.st.Iter[best], k.L[0], SBool)}}
 			case "withzero":
 				// withzero(b, lo, hi): the byte slice b with b[lo:hi] read as zero (lo, hi small
 				// literals); only meaningful as an argument of a recursive spec function
